@@ -240,6 +240,10 @@ func (w *World) CosmosTx(ctx sdk.Context, s CosmosSpec) ([]byte, error) {
 type EIP712Spec struct {
 	CosmosSpec
 	TypedDataChainID *uint64 // default: the world's numeric chain id
+	// ForgeBy, if set, is the key that signs the typed data and is named as fee payer in the
+	// extension, while account number, sequence, messages and the signer-info public key stay
+	// those of Key's account (what somebody else would submit in the account's name)
+	ForgeBy *ethsecp256k1.PrivKey
 	// FeePayerInExt: default the signer
 	// SignChainID: chain id string in the sign doc (default the world's)
 }
@@ -265,7 +269,11 @@ func (w *World) EIP712Tx(ctx sdk.Context, s EIP712Spec) ([]byte, error) {
 	}
 	fee := legacytx.NewStdFee(s.Gas, s.Fee) //nolint:staticcheck
 	data := legacytx.StdSignBytes(chain, num, seq, s.Timeout, fee, s.Msgs, s.Memo, nil)
-	td, err := eip712.LegacyWrapTxToTypedData(encCfg.Codec, cid, s.Msgs[0], data, &eip712.FeeDelegationOptions{FeePayer: addr})
+	signKey, payer := s.Key, addr
+	if s.ForgeBy != nil {
+		signKey, payer = s.ForgeBy, sdk.AccAddress(s.ForgeBy.PubKey().Address().Bytes())
+	}
+	td, err := eip712.LegacyWrapTxToTypedData(encCfg.Codec, cid, s.Msgs[0], data, &eip712.FeeDelegationOptions{FeePayer: payer})
 	if err != nil {
 		return nil, err
 	}
@@ -273,7 +281,7 @@ func (w *World) EIP712Tx(ctx sdk.Context, s EIP712Spec) ([]byte, error) {
 	if err != nil {
 		return nil, err
 	}
-	sigBz, err := s.Key.Sign(hash)
+	sigBz, err := signKey.Sign(hash)
 	if err != nil {
 		// PrivKey.Sign hashes again for non-32-byte input; for 32 bytes it signs the digest
 		return nil, err
@@ -283,7 +291,7 @@ func (w *World) EIP712Tx(ctx sdk.Context, s EIP712Spec) ([]byte, error) {
 	if err != nil {
 		return nil, err
 	}
-	opt, err := codectypes.NewAnyWithValue(&haqqtypes.ExtensionOptionsWeb3Tx{FeePayer: addr.String(), TypedDataChainID: cid, FeePayerSig: sigBz})
+	opt, err := codectypes.NewAnyWithValue(&haqqtypes.ExtensionOptionsWeb3Tx{FeePayer: payer.String(), TypedDataChainID: cid, FeePayerSig: sigBz})
 	if err != nil {
 		return nil, err
 	}
